@@ -171,8 +171,9 @@ def run_render(ch, ctx, fault):
                      "set_padding(%s)" % pm2.describe(), "set")
             elif op == "args":
                 c2 = ch.pick("char2", "#@%")
-                res = both(lambda it, S: it.set_render_args(+S.SimArgs(c2)),
-                           "set_render_args(char=%r)" % c2, "set")
+                sh2 = ch.pick("shift2", (0, 0, -1, -2, 1))
+                res = both(lambda it, S: it.set_render_args(+S.SimArgs(c2, sh2)),
+                           "set_render_args(char=%r, shift=%d)" % (c2, sh2), "set")
                 if res[0] == "ok":
                     epoch += 1
                     rendered_in_epoch = set()
